@@ -423,6 +423,7 @@ def main():
     run.require("frontier_states_expanded", 100)
     run.require("sender_constraints_checked", 300)
     run.require("state_ids_new", 200)
+    run.require("probes_reported", 3)
     run.finish()
 
 
